@@ -103,10 +103,39 @@ static void phase_shard(long shard, void *arg) {
     }
 #endif
 }
+/* ---------- huge: megabyte-sized addresses ----------
+ * Four shapes of 12 MiB (thorough: 1, 8, 12, 64 MiB) - one giant label, valid labels in a name far too long, a giant local part, a giant U-label -
+ * through every entry point: anything proportional to the input that the library puts on the stack (a VLA, alloca, recursion) or into a
+ * fixed buffer faults here; each (shape, size) is one shard. */
+static size_t HUGE_SZ[8]; static int HUGE_NSZ;
+static char *huge_build(int shape, size_t sz, size_t *n) {
+    char *p = malloc(sz + 64); size_t l = 0;
+    switch (shape) {
+    case 0: memcpy(p, "x@", 2); memset(p + 2, 'a', sz); memcpy(p + 2 + sz, ".com", 5); l = sz + 6; break;
+    case 1: memcpy(p, "x@", 2); memset(p + 2, 'a', sz); for (size_t i = 63; i < sz; i += 64) p[2 + i] = '.'; p[2 + sz - 1] = 'a'; memcpy(p + 2 + sz, ".com", 5); l = sz + 6; break;
+    case 2: memset(p, 'a', sz); memcpy(p + sz, "@ok.com", 8); l = sz + 7; break;
+    default: memcpy(p, "x@", 2); for (size_t i = 0; i + 1 < sz; i += 2) { p[2 + i] = (char)0xd0; p[3 + i] = (char)0xb6; } sz &= ~(size_t)1; memcpy(p + 2 + sz, ".com", 5); l = sz + 6; break;
+    }
+    *n = l; return p;
+}
+static void huge_shard(long shard, void *arg) {
+    (void)arg; int shape = (int)(shard % 4); size_t sz = HUGE_SZ[shard / 4], n;
+    char cfg[64]; snprintf(cfg, sizeof cfg, "huge=1 shape=%d size=%zu", shape, sz);
+    mc_current("huge", cfg, (const unsigned char *)"", 0); MC_ADD(C_ADDR, 1);
+    char *p = huge_build(shape, sz, &n);
+    drive(p, n);
+    const char *at = strrchr(p, '@'); if (at) { const char *d = at + 1; long acc = 0; int ir = 0;
+        acc += is_ascii_domain(d, p + n); acc += is_utf8_domain(&ir, d, p + n, true); acc += is_special_domain(d, p + n);
+        for (int m = 0; m < 4; m++) acc += LOCAL[m](p, at);
+        SINKHOLE += acc; MC_ADD(C_CALLS, 7); MC_ADD(C_EVAL, 7); }
+    free(p);
+}
+
 static int do_replay(void) {
     mc_replay_t r; if (mc_load_replay(mc_replay, &r)) return 2;
     mc_replay_hit = 0;
-    if (!strcmp(r.sub, "leak")) { CURPH = (int)mc_cfg_int(r.cfg, "phase", 0); phase_shard(mc_cfg_int(r.cfg, "shard", 0), NULL); }
+    if (!strcmp(r.sub, "huge") || !strcmp(r.sub, "crash:huge")) { HUGE_SZ[0] = (size_t)strtoull(strstr(r.cfg, "size=") + 5, NULL, 10); huge_shard(mc_cfg_int(r.cfg, "shape", 0), NULL); }
+    else if (!strcmp(r.sub, "leak")) { CURPH = (int)mc_cfg_int(r.cfg, "phase", 0); phase_shard(mc_cfg_int(r.cfg, "shard", 0), NULL); }
     else { const char *q = r.sub; if (!strncmp(q, "crash:", 6)) q += 6; for (int i = 0; i < CP_N; i++) if (!strncmp(q, corpus_name(i), strlen(q))) CURPH = i; sink(r.in, (size_t)r.len, NULL); }
     printf("replay %s: %s\n", mc_replay, mc_replay_hit ? "VIOLATION reproduced" : "no violation (a crash would have killed this process)");
     return mc_replay_hit ? 1 : 0;
@@ -122,5 +151,8 @@ int main(int argc, char **argv) {
     if (mc_replay) return do_replay();
     for (int ph = 0; ph < CP_N; ph++) { if (ph == CP_SCALARS && !mc_thorough) continue;   /* 1.1M code points x every entry point: thorough tier only (C03 sweeps them every time) */
         CURPH = ph; char nm[72]; snprintf(nm, sizeof nm, "%.48s (N=%d)", corpus_name(ph), corpus_N(ph)); mc_parallel(nm, corpus_shards(ph), phase_shard, NULL); }
+    { HUGE_NSZ = 0; if (mc_thorough) { HUGE_SZ[HUGE_NSZ++] = (size_t)1 << 20; HUGE_SZ[HUGE_NSZ++] = (size_t)8 << 20; }
+      HUGE_SZ[HUGE_NSZ++] = (size_t)12 << 20; if (mc_thorough) HUGE_SZ[HUGE_NSZ++] = (size_t)64 << 20;
+      mc_parallel(mc_thorough ? "huge: 4 shapes x 1, 8, 12, 64 MiB through every entry point" : "huge: 4 shapes x 12 MiB through every entry point", 4L * HUGE_NSZ, huge_shard, NULL); }
     return mc_finish();
 }
